@@ -77,9 +77,9 @@ def cli_case(case, env):
 def check(tier, seed, t0):
     common.build_harness()
     common.build_rg()
-    total = 300 if tier == "quick" else 10000
+    total = 1500 if tier == "quick" else 30000
     parts = [("lib", common.run_rgmon("c13", tier, seed)),
-             ("cli", common.run_cli_cases("c13", cli_case, seed, "c13cli", total, 25 if tier == "quick" else 100))]
+             ("cli", common.run_cli_cases("c13", cli_case, seed, "c13cli", total, 94 if tier == "quick" else 200))]
     rep = common.merge_reports(parts)
     return common.finalize("C13", tier, seed, "exploration", RULE, rep, t0, ASSUME,
                            floor_eval=1000, floor_distinct=300)
